@@ -440,7 +440,8 @@ func suiteFaults(o *suiteOut, r *rng, tier string, n int) {
 				o.fail("C13", "a read fault causes no panic", line, "error", got[:min(200, len(got))])
 			}
 			isErr := got == "error" || (in.kind == "ps" && !strings.HasPrefix(got, "ok")) || (in.kind == "pfb" && !strings.HasSuffix(got, "|<nil>"))
-			if fr.issued && !isErr && k < len(in.data) {
+			selfEnding := in.kind == "ps" && (bytes.Contains(in.data, []byte("stop")) || bytes.Contains(in.data, []byte("closefile")))
+			if fr.issued && !isErr && k < len(in.data) && !selfEnding {
 				// the failing Read was issued and its error swallowed (a run ended by `stop`/closefile never issues it)
 				o.fail("C13", "a read fault at any offset surfaces as an error", line+" ("+in.desc+")", "error", got[:min(200, len(got))])
 			}
